@@ -1,0 +1,43 @@
+//go:build verif && (verif_all || verif_c13)
+// +build verif
+// +build verif_all verif_c13
+
+package gocql
+
+// Verification hooks (build tag `verif`) for C13 (retries while the hosts' usability changes): the state
+// of a HostInfo and the session's per-host pools, as the session itself changes them on UP/DOWN events,
+// host removal and pool shutdown. Add-only thin wrappers over unexported methods; no logic of their own.
+
+// VerifC13SetHostState is HostInfo.setState(NodeUp / NodeDown) (what handleNodeConnected / handleNodeDown do).
+func VerifC13SetHostState(h *HostInfo, up bool) {
+	if up {
+		h.setState(NodeUp)
+	} else {
+		h.setState(NodeDown)
+	}
+}
+
+// VerifC13RemovePool is policyConnPool.removeHost (what handleNodeDown and removeHost do with the host's pool).
+func VerifC13RemovePool(s *Session, h *HostInfo) { s.pool.removeHost(h.HostID()) }
+
+// VerifC13AddPool is policyConnPool.addHost (what startPoolFill does on an UP event / a new host): the pool is
+// created if missing and filled; the first connection is made synchronously.
+func VerifC13AddPool(s *Session, h *HostInfo) { s.pool.addHost(h) }
+
+// VerifC13ClosePool is hostConnPool.Close on the pool registered for the host; false when there is none.
+func VerifC13ClosePool(s *Session, h *HostInfo) bool {
+	p, ok := s.pool.getPool(h)
+	if ok {
+		p.Close()
+	}
+	return ok
+}
+
+// VerifC13PoolConns is hostConnPool.Size of the pool registered for the host; -1 when there is none.
+func VerifC13PoolConns(s *Session, h *HostInfo) int {
+	p, ok := s.pool.getPool(h)
+	if !ok {
+		return -1
+	}
+	return p.Size()
+}
